@@ -541,8 +541,9 @@ func c17BoundValue(v ssa.Value, bind map[*ssa.Phi]ssa.Value) ssa.Value {
 }
 
 // c17CondOnPath: the truth value of a branch condition on a path that entered its joins through the
-// edges recorded in bind; unknownTri when the path does not decide it.
-func c17CondOnPath(cond ssa.Value, bind map[*ssa.Phi]ssa.Value, depth int) tri {
+// edges recorded in bind and took the branches recorded in known (condition with `!` stripped ↦ its
+// truth value on this path); unknownTri when the path does not decide it.
+func c17CondOnPath(cond ssa.Value, bind map[*ssa.Phi]ssa.Value, known map[ssa.Value]bool, depth int) tri {
 	neg := func(t tri) tri {
 		switch t {
 		case yesTri:
@@ -566,10 +567,17 @@ func c17CondOnPath(cond ssa.Value, bind map[*ssa.Phi]ssa.Value, depth int) tri {
 		}
 		return noTri
 	}
+	if t, ok := known[cond]; ok {
+		// the path already branched on this very condition
+		if t {
+			return yesTri
+		}
+		return noTri
+	}
 	switch x := cond.(type) {
 	case *ssa.UnOp:
 		if x.Op == token.NOT {
-			return neg(c17CondOnPath(x.X, bind, depth+1))
+			return neg(c17CondOnPath(x.X, bind, known, depth+1))
 		}
 	case *ssa.BinOp:
 		if x.Op != token.EQL && x.Op != token.NEQ {
@@ -579,17 +587,17 @@ func c17CondOnPath(cond ssa.Value, bind map[*ssa.Phi]ssa.Value, depth int) tri {
 		res := unknownTri // truth of l == r
 		switch {
 		case isNilConst(r):
-			res = c17NilnessOf(l)
+			res = c17NilnessOnPath(l, known)
 		case isNilConst(l):
-			res = c17NilnessOf(r)
+			res = c17NilnessOnPath(r, known)
 		default:
 			if cb, ok := constBool(r); ok {
-				res = c17CondOnPath(x.X, bind, depth+1)
+				res = c17CondOnPath(x.X, bind, known, depth+1)
 				if !cb {
 					res = neg(res)
 				}
 			} else if cb, ok := constBool(l); ok {
-				res = c17CondOnPath(x.Y, bind, depth+1)
+				res = c17CondOnPath(x.Y, bind, known, depth+1)
 				if !cb {
 					res = neg(res)
 				}
@@ -603,6 +611,53 @@ func c17CondOnPath(cond ssa.Value, bind map[*ssa.Phi]ssa.Value, depth int) tri {
 	return unknownTri
 }
 
+// c17NilnessOnPath: is v nil (yes) / non-nil (no) on a path that took the branches in known? Beyond
+// what the value says about itself, an earlier nil test of the same value decides it (`if err != nil
+// { return nil, false, err }` in a merged helper: the error that arrives at the join over that edge
+// is the one just tested non-nil).
+func c17NilnessOnPath(v ssa.Value, known map[ssa.Value]bool) tri {
+	if t := c17NilnessOf(v); t != unknownTri {
+		return t
+	}
+	sv := stripConv(v)
+	for kc, truth := range known {
+		x, trueMeansNonNil, ok := errNilTest(kc)
+		if !ok || (x != v && stripConv(x) != sv) {
+			continue
+		}
+		if truth == trueMeansNonNil {
+			return noTri
+		}
+		return yesTri
+	}
+	return unknownTri
+}
+
+// c17ComputedIn: is v, or something it is computed from (a few levels), an instruction of block b?
+// Such a value is computed anew when a path enters b again; what the path knew about it is stale.
+func c17ComputedIn(v ssa.Value, b *ssa.BasicBlock, depth int) bool {
+	in, ok := v.(ssa.Instruction)
+	if !ok {
+		return false
+	}
+	if in.Block() == b {
+		return true
+	}
+	if depth >= 4 {
+		return false
+	}
+	switch v.(type) {
+	case *ssa.Phi, *ssa.Call, *ssa.Alloc:
+		return false
+	}
+	for _, op := range in.Operands(nil) {
+		if op != nil && *op != nil && c17ComputedIn(*op, b, depth+1) {
+			return true
+		}
+	}
+	return false
+}
+
 // c17FeasibleReach: is there a path from block `from` to block `to` that does not enter `avoid` and is
 // consistent with itself? The walk records, for every join it enters, which incoming edge it used
 // (the value each phi of the join has on this path) and does not follow the branch of an `if` whose
@@ -610,19 +665,23 @@ func c17CondOnPath(cond ssa.Value, bind map[*ssa.Phi]ssa.Value, depth int) tri {
 // search budget counts as reachable.
 func c17FeasibleReach(from, to, avoid *ssa.BasicBlock, infeasible func(from, to *ssa.BasicBlock) bool) bool {
 	type state struct {
-		b    *ssa.BasicBlock
-		bind map[*ssa.Phi]ssa.Value
+		b     *ssa.BasicBlock
+		bind  map[*ssa.Phi]ssa.Value
+		known map[ssa.Value]bool
 	}
 	sig := func(s state) string {
 		var parts []string
 		for ph, v := range s.bind {
 			parts = append(parts, fmt.Sprintf("%s=%p", ph.Name(), v))
 		}
+		for c, t := range s.known {
+			parts = append(parts, fmt.Sprintf("?%p=%v", c, t))
+		}
 		sort.Strings(parts)
 		return fmt.Sprintf("%d|%s", s.b.Index, strings.Join(parts, ","))
 	}
 	seen := map[string]bool{}
-	work := []state{{b: from, bind: map[*ssa.Phi]ssa.Value{}}}
+	work := []state{{b: from, bind: map[*ssa.Phi]ssa.Value{}, known: map[ssa.Value]bool{}}}
 	for budget := 20000; len(work) > 0; budget-- {
 		if budget == 0 {
 			return true
@@ -641,8 +700,18 @@ func c17FeasibleReach(from, to, avoid *ssa.BasicBlock, infeasible func(from, to 
 		}
 		seen[k] = true
 		decided := unknownTri
+		var cond ssa.Value // the branch condition with `!` stripped; condNeg: an odd number was stripped
+		condNeg := false
 		if iff, ok := s.b.Instrs[len(s.b.Instrs)-1].(*ssa.If); ok && len(s.b.Succs) == 2 && s.b.Succs[0] != s.b.Succs[1] {
-			decided = c17CondOnPath(iff.Cond, s.bind, 0)
+			decided = c17CondOnPath(iff.Cond, s.bind, s.known, 0)
+			cond = iff.Cond
+			for {
+				u, isNot := cond.(*ssa.UnOp)
+				if !isNot || u.Op != token.NOT {
+					break
+				}
+				cond, condNeg = u.X, !condNeg
+			}
 		}
 		for si, nx := range s.b.Succs {
 			if (decided == yesTri && si == 1) || (decided == noTri && si == 0) {
@@ -673,7 +742,23 @@ func c17FeasibleReach(from, to, avoid *ssa.BasicBlock, infeasible func(from, to 
 					delete(nb, ph)
 				}
 			}
-			work = append(work, state{b: nx, bind: nb})
+			// the branch taken here is known from now on, until the path enters a block again that
+			// computes the condition (or what it tests) anew
+			nk := make(map[ssa.Value]bool, len(s.known)+1)
+			for c, t := range s.known {
+				nk[c] = t
+			}
+			if cond != nil && decided == unknownTri {
+				if _, isConst := cond.(*ssa.Const); !isConst {
+					nk[cond] = (si == 0) != condNeg
+				}
+			}
+			for c := range nk {
+				if c17ComputedIn(c, nx, 0) {
+					delete(nk, c)
+				}
+			}
+			work = append(work, state{b: nx, bind: nb, known: nk})
 		}
 	}
 	return false
